@@ -1,9 +1,11 @@
 // extract: regenerates Lean facts from /repo's current working tree.
 //
 // It is deliberately tiny: go/parser + a constant evaluator. It emits
-//   Gen/Tables.lean  - tables and constants the models and theorems quantify over
-//   Gen/Facts.lean   - structural facts (which read primitive is used, goroutine
-//                      access facts, mutex discipline) consumed by theorems
+//
+//	Gen/Tables.lean  - tables and constants the models and theorems quantify over
+//	Gen/Facts.lean   - structural facts (which read primitive is used, goroutine
+//	                   access facts, mutex discipline) consumed by theorems
+//
 // The files are deleted and rewritten on every run of ./check.
 package main
 
